@@ -71,6 +71,7 @@ H_ENTRY(h_ot_2) {
     bool ok = false; H_TRY(ok = ot->Choose_interactive_OneOutOfTwo(sigma, got, reply, sink));
     vf_assert(vfh_exc == 0 && ok, "chooser accepts the honest reply");
     vf_assert(mpz_cmp(got, sigma == 0 ? (mpz_srcptr)M0 : (mpz_srcptr)M1) == 0, "1-of-2: chooser outputs the message at the chosen index");
+#ifdef H_OTHER
     // the other ciphertext under the chooser's own secret b: opens to the other message only in the exact exceptional set s_other == 0
     // (c_other == a*b is excluded above): key_other / w_other^b = g^(s_other * (c_other - a*b))
     Z w0, e0, w1, e1; reply2 >> (mpz_ptr)w0 >> (mpz_ptr)e0 >> (mpz_ptr)w1 >> (mpz_ptr)e1;
@@ -78,6 +79,8 @@ H_ENTRY(h_ot_2) {
     mpz_mul(t, sigma == 0 ? (mpz_srcptr)e1 : (mpz_srcptr)e0, inv); mpz_mod(t, t, ot->p);
     bool opens = mpz_cmp(t, sigma == 0 ? (mpz_srcptr)M1 : (mpz_srcptr)M0) == 0;
     vf_assert(opens == (s_other == 0), "the ciphertext not chosen opens under the chooser's secret exactly when the sender's s coin vanishes");
+#endif
+    (void)s_other; (void)reply2;
   }
   H_END();
 }
@@ -116,6 +119,7 @@ H_ENTRY(h_ot_nopt) {
   bool ok = false; H_TRY(ok = ot->Choose_interactive_OneOutOfN_optimized(sigma, H_N, got, reply, sink));
   vf_assert(vfh_exc == 0 && ok, "chooser accepts the honest reply");
   vf_assert(mpz_cmp(got, M[sigma]) == 0, "optimised 1-of-N: chooser outputs the message at the chosen index");
+#ifdef H_OTHER
   // any other ciphertext i under the chooser's secret b: key_i / w_i^b = g^(s_i * (i - sigma)), so it opens exactly when s_i == 0 (N <= q)
   for (unsigned i = 0; i < H_N; ++i) {
     Z w, e; reply2 >> (mpz_ptr)w >> (mpz_ptr)e;
@@ -124,6 +128,8 @@ H_ENTRY(h_ot_nopt) {
     Z t, inv; mpz_powm_ui(t, w, (unsigned long)b, ot->p); mpz_invert(inv, t, ot->p); mpz_mul(t, e, inv); mpz_mod(t, t, ot->p);
     vf_assert((mpz_cmp(t, M[i]) == 0) == (s_i == 0), "a ciphertext not chosen opens under the chooser's secret exactly when the sender's s_i vanishes");
   }
+#endif
+  (void)b; (void)reply2;
   H_END();
 }
 H_ENTRY(h_ot_nopt_firstmove) {
